@@ -179,6 +179,10 @@ class Ctx:
 
         def f(x):
             a = ctx._begin(nid, x, kind)
+            if ctx.fails.get((nid, a.call)) == 'call':
+                # the function raises when it is called (argument validation ...), before there is anything to await
+                ctx._end(a, False)
+                raise InjectedFailure(nid, a.call)
             return impl(a, x)
         return f
 
